@@ -71,8 +71,30 @@ type readerOut struct {
 	left  int
 }
 
+// A reader's result must stay what it was when a later Read happens (a reader that hands out a
+// slice of a buffer it reuses corrupts values its caller still holds): the previous result and a
+// copy of it are kept, and compared after every call.
+var (
+	prevReaderData, prevReaderCopy []byte
+	prevReaderDesc                 string
+	readerAliasReports             []string
+)
+
+func noteReaderResult(desc string, data []byte) {
+	if prevReaderData != nil && !bytes.Equal(prevReaderData, prevReaderCopy) && len(readerAliasReports) < 5 {
+		readerAliasReports = append(readerAliasReports,
+			fmt.Sprintf("the bytes returned by %s were %x and read %x after the next Read (%s)", prevReaderDesc, prevReaderCopy, prevReaderData, desc))
+	}
+	prevReaderData, prevReaderCopy, prevReaderDesc = data, append([]byte(nil), data...), desc
+}
+
 // sigRead: signature.Parse(sig).Reader().Read over a bytes.Reader
 func sigRead(sig string, input []byte) (o readerOut) {
+	defer func() {
+		if o.class == ocOK && len(o.data) > 0 {
+			noteReaderResult("Parse("+sig+").Reader().Read", o.data)
+		}
+	}()
 	defer func() {
 		if e := recover(); e != nil {
 			o = readerOut{class: ocPanic}
